@@ -476,6 +476,7 @@ static iwrc _rollforward_exl(struct iwal *wal, IWFS_EXT *extf, int recover_mode)
       // \_rpos
       wmm += rpos;
       fsz -= rpos;
+      fpos -= rpos;
     }
   } else if (wal->rollforward_offset > 0) {
     if (wal->rollforward_offset >= fsz) {
